@@ -50,6 +50,8 @@ GROUPS = [
  dict(BASE, name="merge_sort_key", entry="h_merge_sort_key", flags=FLAGS + ["-DVERIF_GC=1", "-DVM_NPAIRS=6"], functions=["lib/srfi/95/qsort.c:sexp_merge_sort_less(key procedure, root discipline)"],
       bound="vectors of 1..2 elements (one comparison: two key objects and the argument list fill the 6-pair pool of the adversarial collector)", instances=ns(1, 2, 2), unwindset=BASE["unwindset"] + ",vm_root_holds.0:100",
       assumptions=BASE["assumptions"] + ["adversarial collector of harness/vm/vm.h: a collection at every application of the key or comparator procedure reclaims and havocs every pool pair not reachable from ctx->saves"]),
+ dict(BASE, name="sort_x_inverse", entry="h_sort_x_inverse", functions=["lib/srfi/95/qsort.c:sexp_sort_x(built-in comparison, inverse opcode)", "lib/srfi/95/qsort.c:sexp_merge_sort", "lib/srfi/95/qsort.c:sexp_vector_nreverse"],
+      bound="vectors of 1..5 elements (quick <= 4), comparator the > opcode, no key", instances=ns(1, 5, 4)),
  dict(BASE, name="sort_x", entry="h_sort_x", functions=["lib/srfi/95/qsort.c:sexp_sort_x"], bound="vectors of 1..5 elements (quick <= 4), procedure comparator, no key", instances=ns(1, 5, 4)),
 ]
 META = {
